@@ -4,6 +4,9 @@ AllOps  == {"CreateUser", "SetPassword", "Disable", "Enable", "DeleteUser", "Cre
             "AuthPassword", "AuthCookie", "AuthOneTime", "PGetS"}
 SeqOps  == AllOps \ {"PGetS"}
 ConcOps == {"CreateUser", "CreateSession", "PGetS"}   \* set-up, then only concurrent presentations
+PwOps   == {"CreateUser", "SetPassword", "DeleteUser", "Disable", "Enable", "AuthPassword"}           \* credential histories
+SessLifeOps == {"CreateUser", "SetPassword", "DeleteUser", "CreateSession", "DeleteSession", "AuthCookie", "AuthOneTime"}   \* session-life histories
+ConcMixOps == ConcOps \cup {"AuthCookie", "AuthOneTime", "DeleteSession", "SetPassword"}   \* episodes mixed with sequential presentations
 AllDone == Presenters # {} /\ \A q \in Presenters : pc[q] = "done"
 Export == PrintT(<<"BEH", ToJson([steps |-> hist])>>)
 (* sequential / mixed families: every behaviour of exactly MaxSteps steps that ends with no presentation in flight *)
